@@ -695,6 +695,7 @@ pub fn run_scenario_on(scn: &Scenario, sel: HostSel, ck: &Checks, cov: &mut Cov)
     m0.g.legacy_supported = sel.supports_legacy();
     m0.g.legacy_drops = scn.legacy_drops;
     let tokens0 = super::ops::live_tokens();
+    let ops0 = super::ops::live_ops();
     let ctrl = if scn.buggify { Some(install_buggify(scn.hash_seed)) } else { None };
     let mut coverage = BTreeMap::new();
     for a in scn.steps.iter().flatten() {
@@ -819,6 +820,12 @@ pub fn run_scenario_on(scn: &Scenario, sel: HostSel, ck: &Checks, cov: &mut Cov)
         let toks = super::ops::live_tokens() - tokens0;
         if toks != 0 {
             return Err(viol(id, "leak:tokens_after_host_drop", format!("{toks} tokens alive after the host was dropped")));
+        }
+    }
+    if ck.occupancy && !discarded {
+        let ops = super::ops::live_ops() - ops0;
+        if ops != 0 {
+            return Err(viol(id, "leak:operations_after_host_drop", format!("{ops} operation values are still alive after the host and the shell were dropped: something a request captured is never released")));
         }
     }
     if let Some(c) = ctrl {
